@@ -33,7 +33,7 @@ func init() { core.Register(prop{}) }
 func (prop) ID() string    { return "C07" }
 func (prop) Level() string { return "fault_enumeration" }
 func (prop) Rule() string {
-	return "direct: every sequence of up to 4 (quick) / 6 (thorough) single-line writes with line lengths from {10, 11, 511, 512, 1022, 1023, 1024, 1025, 2049} to the real rotating writer with max size 1024 (exhaustive), seeded sequences of multi-line batches for max sizes 1024/4096/1 MiB, with the log file renamed or removed externally, or the writer closed and a new instance opened on the same path (restart), between writes (fault points: before every write; restart exhaustively for sequences up to 3 writes); end to end: the real FileBackend fed bursts of 1..5000 stamped events of 2 B..600 KiB from 1/4/32 goroutines, read back 2.5 s after the last Send and again until the files have been at rest for 2 s; faults: destination directory missing or unwritable before the writer opens the file. Non-trivial = a sequence that caused >=1 rotation or a backend whose file received >=1 line; distinct by sequence / backend parameters. In a third of the real-backend scenarios an unserialisable event (NaN value) follows every fifth stamped event."
+	return "direct: every sequence of up to 4 (quick) / 6 (thorough) single-line writes with line lengths from {10, 11, 511, 512, 1022, 1023, 1024, 1025, 2049} to the real rotating writer with max size 1024 (exhaustive), seeded sequences of multi-line batches for max sizes 1024/4096/1 MiB, with the log file renamed or removed externally, or the writer closed and a new instance opened on the same path (restart), between writes (fault points: before every write; restart exhaustively for sequences up to 3 writes); end to end: the real FileBackend fed bursts of 1..5000 stamped events of 2 B..600 KiB from 1/4/32 goroutines, read back 2.5 s after the last Send and again until the files have been at rest for 2 s; faults: destination directory missing or unwritable before the writer opens the file. Non-trivial = a sequence that caused >=1 rotation or a backend whose file received >=1 line; distinct by sequence / backend parameters. In a third of the real-backend scenarios an unserialisable event (NaN value) follows every fifth stamped event. Fault dir-removed-later: after three events and one flush interval the directory that holds the log file is removed for good; the remaining Sends must return."
 }
 func (prop) Assumptions() []string {
 	return []string{"a final line without trailing newline counts as a line if it parses", "lines removed by the harness's own external 'rm' are not expected back; an externally renamed file is read back under its new name", "under an unwritable destination only 'Send does not block forever' is demanded"}
